@@ -230,6 +230,9 @@ fn append_check(spec: &Spec, key: u64, applicable: &mut bool) -> Option<(String,
 }
 
 struct Run {
+    probed: bool,
+    alt_ctors: bool,
+    wrap: usize,
     appended: bool,
     violation: Option<(String, String)>,
     inconclusive: bool,
@@ -281,7 +284,7 @@ fn run_case(spec: &Spec, tape: &mut Tape, key_canon: u64, key_var: u64) -> Resul
     let kind = spec.kind_name();
     let pa = matches!(a.write, WRes::Panic(_)) || matches!(a.size, Some(WRes::Panic(_)));
     let pb = matches!(b.write, WRes::Panic(_)) || matches!(b.size, Some(WRes::Panic(_)));
-    let mut run = Run { appended: false, violation: None, inconclusive: false, shape, log };
+    let mut run = Run { probed: probes != 0, alt_ctors: ctors != 0, wrap, appended: false, violation: None, inconclusive: false, shape, log };
     if pa && pb {
         run.inconclusive = true;
         return Ok(run);
@@ -497,6 +500,16 @@ impl Check for C20 {
         ctx.stats.events += 4;
         ctx.stats.fault("call-history", 1);
         ctx.stats.fault("hash-key", 1);
+        ctx.stats.fault("buffer-residue", 1);
+        if run.probed {
+            ctx.stats.fault("observation-probes", 1);
+        }
+        if run.alt_ctors {
+            ctx.stats.fault("constructor-forms", 1);
+        }
+        if run.wrap > 0 {
+            ctx.stats.fault(["", "wrapper-packet-builder", "wrapper-one-member-compound", "wrapper-nested-non-last", "wrapper-nested-non-last"][run.wrap.min(4)], 1);
+        }
         ctx.stats.trace_digest ^= fnv1a(seed, &run.shape.to_le_bytes());
         if run.inconclusive {
             ctx.stats.inconclusive_panics += 1;
